@@ -272,8 +272,8 @@ class Gen:
         """-> (desc, instance) or (None, error)"""
         err = None
         for _ in range(tries):
-            d = self.desc(name, force=force)
             try:
+                d = self.desc(name, force=force)     # (a schema damaged by the change under test can defeat the generator)
                 return d, self.build(d)
             except Exception as e:  # noqa
                 err = e
